@@ -5,10 +5,12 @@ import (
 	"fmt"
 	"reflect"
 	"sort"
+	"sync/atomic"
 
 	"github.com/protolambda/zrnt/eth2/beacon"
 	"github.com/protolambda/zrnt/eth2/beacon/common"
 
+	"verif/internal/core"
 	"verif/internal/refspec"
 )
 
@@ -235,3 +237,70 @@ func ContextHook(n *Node, slot uint64) (out []HookFinding) {
 }
 
 var _ = sort.Ints
+
+// SiblingIndependence (C15, "a copied state with a cloned context can be advanced arbitrarily without any
+// observable change to the original, and vice versa"): at every state of the scenario's base history take two
+// copies x, y of (state, context) the way a client does (CopyState + Clone); advance x with each registry-changing
+// deviation of the menu followed by empty slots across the next TWO epoch boundaries (so that every per-epoch part
+// of its context is rebuilt); then the untouched original n and the untouched sibling y must still be exactly what
+// they were: state bytes and cached root (Diff against the reference) and the whole context against a context
+// built from scratch (ContextHook). Finally y is advanced along the base history and x is checked the same way.
+func SiblingIndependence(run *core.Run, sc *Scenario, st *IndepStats) {
+	w := NewWorld(sc.Preset, run.Seed, sc.NKeys)
+	g, err := w.Genesis()
+	if err != nil {
+		run.Report("C15/harness", "genesis: "+err.Error(), nil)
+		return
+	}
+	ctx := context.Background()
+	spe := w.C.SlotsPerEpoch
+	n := g
+	check := func(who string, node *Node, slot uint64, hist string) {
+		atomic.AddInt64(&st.Checks, 1)
+		if d := node.Diff(); d != "" {
+			run.Report("C15/sibling/state", fmt.Sprintf("scenario %s, %s: %s changed although only its copy was advanced: %s", sc.Name, hist, who, d), map[string]interface{}{"scenario": sc.Name, "history": hist})
+		}
+		for _, f := range ContextHook(node, node.Ref.Slot) {
+			run.Report("C15/sibling/"+f.Sig, fmt.Sprintf("scenario %s, %s: context of %s changed although only its copy was advanced: %s", sc.Name, hist, who, f.Msg), map[string]interface{}{"scenario": sc.Name, "history": hist})
+		}
+	}
+	for slot := uint64(1); slot < sc.Slots && !run.Expired(); slot++ {
+		// deviations applied to the copy at `slot` (the default choice included)
+		choices := append([]Choice{sc.Default(slot)}, sc.Menu(n, slot)...)
+		for _, ch := range choices {
+			if ch.Skip {
+				continue
+			}
+			x, y := n.Branch(), n.Branch()
+			if r := x.StepBlock(ctx, slot, ch.Plan); r.Mismatch != "" || r.Skipped {
+				continue // C01's business
+			}
+			end := (slot/spe + 2) * spe
+			if r := x.StepSlots(ctx, end); r.Mismatch != "" {
+				continue
+			}
+			atomic.AddInt64(&st.Branches, 1)
+			hist := fmt.Sprintf("base history up to slot %d, copy advanced with %q + empty slots to %d", slot-1, ch.String(), end)
+			check("the original", n, slot-1, hist)
+			check("the untouched sibling copy", y, slot-1, hist)
+			// vice versa: now the sibling runs ahead, x must not notice
+			if r := y.StepSlots(ctx, end+spe); r.Mismatch == "" {
+				check("the advanced copy (after its sibling ran ahead)", x, end, hist+fmt.Sprintf(", then the sibling advanced to %d", end+spe))
+			}
+		}
+		// next state of the base history
+		d := sc.Default(slot)
+		if d.Skip {
+			continue
+		}
+		nn := n.Branch()
+		if r := nn.StepBlock(ctx, slot, d.Plan); r.Mismatch != "" {
+			run.Report("C15/harness", "base history: "+r.Mismatch, nil)
+			return
+		}
+		check("the parent of the base history", n, slot-1, fmt.Sprintf("base history advanced to slot %d", slot))
+		n = nn
+	}
+}
+
+type IndepStats struct{ Branches, Checks int64 }
